@@ -272,7 +272,8 @@ def run_child(cwd, job, kill=None, timeout=300):
     except subprocess.TimeoutExpired:
         raise CrashMachineryError('child timed out: %r' % (job,))
     if not os.path.exists(log):
-        raise CrashMachineryError('strace wrote no log (ptrace not permitted?): %s' % p.stdout.decode()[-500:])
+        raise CrashMachineryError('strace wrote no log (ptrace not permitted?): cwd=%s exists=%s kill=%r job=%r\n%s'
+                                  % (cwd, os.path.isdir(cwd), kill, job, p.stdout.decode()[-500:]))
     with open(log, errors='replace') as f:
         txt = f.read()
     return p.returncode, txt, p.stdout.decode(errors='replace')
